@@ -86,6 +86,14 @@ impl Validator {
                     self.tlds.insert(k, tld);
                 }
             }
+            // Components are copied first: what they refer to (classes, selection types, values)
+            // is then resolved for this definition like for components written out
+            if self.has_components_of_notation(&key) {
+                if let Some((k, ToplevelDefinition::Type(mut tld))) = self.tlds.remove_entry(&key) {
+                    tld.ty.link_components_of_notation(&self.tlds);
+                    self.tlds.insert(k, ToplevelDefinition::Type(tld));
+                }
+            }
             if self.references_class_by_name(&key) {
                 match self.tlds.remove_entry(&key) {
                     Some((k, ToplevelDefinition::Type(mut tld))) => {
@@ -97,12 +105,6 @@ impl Validator {
                         self.tlds.insert(k, ToplevelDefinition::Object(tld));
                     }
                     _ => (),
-                }
-            }
-            if self.has_components_of_notation(&key) {
-                if let Some((k, ToplevelDefinition::Type(mut tld))) = self.tlds.remove_entry(&key) {
-                    tld.ty.link_components_of_notation(&self.tlds);
-                    self.tlds.insert(k, ToplevelDefinition::Type(tld));
                 }
             }
             if self.has_choice_selection_type(&key) {
